@@ -247,6 +247,30 @@ func (c *vclock) Advance(t int64, hold bool) int {
 	return n
 }
 
+// AdvanceLag sets the clock to t and fires every due timer with a VALUE that is older than the
+// clock reading by up to lag (but not older than the timer's own instant): what a timer channel
+// hands over on a busy host, where the scheduler goroutine gets to run only after the clock has
+// moved on.  Returns the number of timers fired.
+func (c *vclock) AdvanceLag(t, lag int64) int {
+	c.mu.Lock()
+	defer c.mu.Unlock()
+	if t > c.now {
+		c.now = t
+	}
+	n := 0
+	keep := c.timers[:0]
+	for _, tm := range c.timers {
+		if tm.dl <= c.now {
+			n++
+			tm.fireAt(max(tm.dl, c.now-max(lag, 0)))
+		} else {
+			keep = append(keep, tm)
+		}
+	}
+	c.timers = keep
+	return n
+}
+
 // DeliverHeld delivers the ticks kept back by Advance(…, true), unless the timer was stopped.
 func (c *vclock) DeliverHeld() {
 	c.mu.Lock()
@@ -329,10 +353,13 @@ type vtimer struct {
 }
 
 // fire is called with c.mu held.
-func (t *vtimer) fire() {
+func (t *vtimer) fire() { t.fireAt(t.c.now) }
+
+// fireAt is called with c.mu held; v is the value the timer channel carries.
+func (t *vtimer) fireAt(v int64) {
 	t.fired = true
 	t.c.delivered++
-	t.ch <- vbase.Add(time.Duration(t.c.now))
+	t.ch <- vbase.Add(time.Duration(v))
 }
 
 func (t *vtimer) C() <-chan time.Time { return t.ch }
